@@ -235,7 +235,22 @@ def r2_budget(ck, repo, L):
                     ok, why = True, ""
                 else:
                     why = f"budget guard `{short(t)}` is not strict: one step beyond the budget is executed"
-        ck.ob("R2-budget", site, "while-guard", ok, f"while {short(t)}", why, where)
+        if not ok and not (isinstance(t, ast.Compare) and len(t.ops) == 1 and any(isinstance(x, ast.Name) and x.id == B for x in ast.walk(t))):
+            # `while True: if not counter < budget: break ...`: the guard sits in the body; it must hold on every path to env.step
+            from ..sem import guard_literals
+            nfq = NF(repo, inline_calls=False)
+            lits = guard_literals(nfq, cfg, L.mi, L.step_node)
+            import re as _re
+            strict = [g for g in lits if _re.fullmatch(rf"Lt\([A-Za-z_][A-Za-z_0-9]*, {B}\)", g)]
+            loose = [g for g in lits if _re.fullmatch(rf"LtE\([A-Za-z_][A-Za-z_0-9]*, {B}\)", g)]
+            if strict:
+                ok, why = True, ""
+                t = ast.parse(strict[0].replace("Lt(", "").replace(")", "").replace(", ", " < "), mode="eval").body
+            elif loose:
+                ok, why = False, f"budget guard `{loose[0]}` is not strict: one step beyond the budget is executed"
+            else:
+                raise AnalysisError(f"{site}: no comparison of a counter with `{B}` guards env.step (loop guard `{short(s.test)}`: unrecognised form)")
+        ck.ob("R2-budget", site, "while-guard", ok, f"while {short(s.test)}" + (f" / {short(t)}" if t is not s.test else ""), why, where)
     elif isinstance(s, ast.For):
         a, b = _range_args(s.iter)
         ok = isinstance(b, ast.Name) and b.id == B
@@ -313,8 +328,25 @@ def r2_episodes(ck, repo, L):
             epi, opn = r.id, {"Lt": "Gt", "LtE": "GtE", "Gt": "Lt", "GtE": "LtE"}.get(type(op).__name__, type(op).__name__)
         else:
             raise AnalysisError(f"{site}: unrecognised episode-limit comparison `{short(cmp)}`")
+        # which arm of the test leaves the loop?  the comparison is read with the polarity it has on that arm (De Morgan / negated forms)
+        leaves = {lab: cfg.paths_avoiding(n.id, L.step_node, set(), first_label=lab) is None for lab in (True, False)}
+        if leaves[True] == leaves[False]:
+            raise AnalysisError(f"{site}: cannot tell which arm of `{short(n.ast.test, 60)}` ends the run (unrecognised form)")
+        exit_lab = True if leaves[True] else False
+        pol = None
+        for txt_, truth_ in cfg._lits(n.ast.test, exit_lab, n.id):
+            try:
+                e_ = ast.parse(txt_, mode="eval").body
+            except SyntaxError:
+                continue
+            if ast.dump(e_) == ast.dump(cmp):
+                pol = truth_
+        if pol is None:
+            raise AnalysisError(f"{site}: the episode-limit comparison `{short(cmp)}` is not decided by the exit arm of `{short(n.ast.test, 60)}` (unrecognised form)")
+        if not pol:
+            opn = {"Lt": "GtE", "LtE": "Gt", "Gt": "LtE", "GtE": "Lt", "Eq": "NotEq", "NotEq": "Eq"}.get(opn, opn)
         ok = opn in ("GtE", "Eq")
-        ck.ob("R2-episodes", site, "comparison", ok, f"`{short(cmp)}`", "" if ok else f"episode limit tested with `{opn}`: the routine runs past the requested number of episodes (or never stops)", where)
+        ck.ob("R2-episodes", site, "comparison", ok, f"`{short(cmp)}` ({'holds' if pol else 'fails'} on the exit arm)", "" if ok else f"the run ends when `{epi} {opn} total_episodes`: the routine runs past the requested number of episodes (or never stops)", where)
         # episode counter == finished episodes at the test
         events = {}
         for m in cfg.nodes:
@@ -346,9 +378,9 @@ def r2_episodes(ck, repo, L):
         ok2 = vals == [0] and not problems
         ck.ob("R2-episodes", site, "counter-equals-finished-episodes", ok2, f"`{epi}` at `{short(cmp)}`",
               "" if ok2 else f"finished episodes - {epi} at the test is {vals} (expected [0]): the routine stops after the wrong number of episodes", where)
-        # the True arm leaves the loop without another step
-        p = cfg.paths_avoiding(n.id, L.step_node, set(), first_label=True)
-        ck.ob("R2-episodes", site, "limit-exits-loop", p is None, f"True arm of `{short(n.ast.test)}`", "" if p is None else "env.step is still reachable after the episode limit was reached", where,
+        # the exit arm leaves the loop without another step
+        p = cfg.paths_avoiding(n.id, L.step_node, set(), first_label=exit_lab)
+        ck.ob("R2-episodes", site, "limit-exits-loop", p is None, f"{exit_lab} arm of `{short(n.ast.test)}`", "" if p is None else "env.step is still reachable after the episode limit was reached", where,
               cfg.describe_path(p) if p else None)
         # the test is inside the episode-end branch
         # semantic reading: after a step whose episode did not end the limit test is not reached before the next step, and after a step
